@@ -13,7 +13,8 @@ Local Open Scope N_scope.
 Inductive kind := KLog | KFlush | KInitBt (cap : nat) (flvl : N) | KFlushBt.
 Inductive fmtres := FOk | FStdThrow | FOtherThrow.   (* what the statement's user formatter does *)
 
-Record ev := { eid : N; ets : N; ekind : kind; elg : nat; elvl : N; esz : N; efmt : fmtres }.
+Record ev := { eid : N; ets : N; ekind : kind; elg : nat; elvl : N; esz : N; efmt : fmtres;
+               enamed : N  (* number of named arguments of the statement (0: positional format) *) }.
 
 Definition LV_BACKTRACE : N := 9.
 Definition LV_NONE : N := 10.
@@ -184,7 +185,7 @@ Definition retime (s : st) (e0 : ev) : ev :=
   match ekind e0 with
   | KLog => e0
   | _ => if c_dropping K
-         then {| eid := eid e0; ets := clock s; ekind := ekind e0; elg := elg e0; elvl := elvl e0; esz := esz e0; efmt := efmt e0 |}
+         then {| eid := eid e0; ets := clock s; ekind := ekind e0; elg := elg e0; elvl := elvl e0; esz := esz e0; efmt := efmt e0; enamed := enamed e0 |}
          else e0
   end.
 
@@ -200,7 +201,7 @@ Definition fstep (s : st) (o : fop) : st :=
       | Some _ => s
       | None =>
         if tvalid x && passes_logger s e then
-          let e' := {| eid := eid e; ets := clock s; ekind := ekind e; elg := elg e; elvl := elvl e; esz := esz e; efmt := efmt e |} in
+          let e' := {| eid := eid e; ets := clock s; ekind := ekind e; elg := elg e; elvl := elvl e; esz := esz e; efmt := efmt e; enamed := enamed e |} in
           set_th s (upd (th s) t (set_thr_pend x (Some e') false))
         else s
       end
@@ -340,6 +341,9 @@ Definition flush_sinks (s : st) : st :=
 
 (* what reaches the sink: the statement's id, or 0 when its message was replaced by an error text *)
 Definition wid (e : ev) : N := match efmt e with FOk => eid e | _ => 0 end.
+(* the named arguments the sink sees: the statement's own (a reused transit event never carries another
+   statement's: they are cleared after every processed event, also when processing throws) *)
+Definition snamed (e : ev) : N := enamed e.   (* also when formatting failed: the keys are there, the values empty *)
 (* Sink::apply_all_filters: the sink's own level filter, then every user filter *)
 Definition sink_accepts (z : snk) (e : ev) : bool :=
   (slevel z <=? elvl e) && forallb (fun m => negb (wid e mod m =? 0)) (sfilt z).
@@ -353,7 +357,7 @@ Fixpoint dispatch (s : st) (e : ev) (ks : list nat) : st * bool :=
       if sink_accepts z e then
         let s1 := set_sk s (upd (sk s) k (bump_swrites z)) in
         if memb (swrites z) (sthrow z) then (s1, true)
-        else dispatch (add_obs s1 [O_WRITE; N.of_nat k; wid e; elvl e]) e r
+        else dispatch (add_obs s1 [O_WRITE; N.of_nat k; wid e; elvl e; snamed e]) e r
       else dispatch s e r
   end.
 
